@@ -67,7 +67,7 @@ def make_jobs(rng, table, n):
     # refused strings: the symbol outside the grammar sits deep inside nested branches, or the nesting itself is too deep
     # (RecursionError, known finding F5) - what such a call leaves behind must not reach the next call of the thread
     for d in (rng.choice([60, 150]), rng.choice([300, 500])):
-        deep.append(["d", "[C][Branch1][C]" * d + "[Foo][C]", {"attribute": rng.random() < 0.3}])
+        deep.append(["d", "[S][Branch1][P]" * d + "[Foo][C]", {"attribute": rng.random() < 0.3}])
     if rng.random() < 0.5:
         deep.append(["d", "[S][Branch1][P]" * rng.choice([2600, 3000]) + "[C]", {}])
     for i in range(n):
@@ -155,6 +155,9 @@ def run(ctx):
             ctx.see("thread_counts", nth)
             jobs, n_normal = make_jobs(rng, table, rng.choice([120, 200]))
             hot = list(range(0, n_normal, 7))      # the (expensive) deep jobs run once each, not in every thread
+            refused = [["d", rng.choice(["[S][Branch1][P]", "[C][=Branch1][P]", "[P][Branch2][P][P]"]) * rng.choice([250, 400, 600]) + rng.choice(["[Foo]", "[CH9]", "[Branch9]"]) + "[C]",
+                        {"attribute": rng.random() < 0.3}] for _ in range(rng.choice([2, 4]))]
+            refused_results = [[] for _ in refused]
             sync_jobs = make_sync_jobs(rng, table)
             sync_results = [[] for _ in sync_jobs]
             stagger = [rng.choice([0, 0, 2e-5, 1e-4, 5e-4, 2e-3]) for _ in sync_jobs]
@@ -174,6 +177,11 @@ def run(ctx):
                         t0 = time.monotonic_ns()
                         results[i] = do(sf, jobs[i])
                         mine.append((t0, time.monotonic_ns(), k, i))
+                    for i, job in enumerate(refused):
+                        # every thread: a few refused calls (the error is met deep inside nested branches) before it goes on
+                        r = do(sf, job)
+                        with lock:
+                            refused_results[i].append(r)
                     for i in hot:
                         t0 = time.monotonic_ns()
                         r = do(sf, jobs[i])
@@ -251,8 +259,17 @@ def run(ctx):
             ctx.count("same_input_in_several_threads", len(hot) * nth)
             ctx.count("simultaneous_first_sight_calls", len(sync_jobs) * nth)
             # serial truth from a fresh child (cannot be contaminated by the concurrent run)
-            serial_all = z.run(table, jobs + sync_jobs, isolate=True)      # one fresh child per job: alone means alone
-            serial, serial_sync = serial_all[:len(jobs)], serial_all[len(jobs):]
+            serial_all = z.run(table, jobs + sync_jobs + refused, isolate=True)      # one fresh child per job: alone means alone
+            serial, serial_sync = serial_all[:len(jobs)], serial_all[len(jobs):len(jobs) + len(sync_jobs)]
+            serial_refused = serial_all[len(jobs) + len(sync_jobs):]
+            for i, j in enumerate(refused):
+                ctx.count("refused_nested_calls", len(refused_results[i]))
+                for r in refused_results[i]:
+                    if r != serial_refused[i]:
+                        ctx.finding("concurrent-result-differs-from-serial", {"job": [j[0], j[1][:200] + "...", j[2]], "table": table, "threads": nth,
+                                                                            "yield_injection": inject},
+                                    "refused call: in its thread %s ; alone %s" % (repr(r)[:200], repr(serial_refused[i])[:200]))
+                        break
             for i, j in enumerate(sync_jobs):
                 ctx.case((j[0], j[1], sorted(j[2].items())), True)
                 for r in sync_results[i]:
